@@ -8,6 +8,7 @@ package main
 //	x-hang: 1        never answer (the gun's timeout ends the call)
 //	x-garbage: hex   status OK, the response message is these raw bytes (not a protobuf message: the client cannot decode it)
 //	x-big: N         status OK, a well-formed response of about N bytes (beyond the client's 4 MiB receive limit)
+//	x-list: N        (method List) status OK, a ListResponse with N items
 //	x-details: N     status N with a `grpc-status-details-bin` trailer that is not a protobuf Status
 //	stopAfter k      the whole server goes away while it handles its k-th call
 
@@ -122,6 +123,14 @@ func newHostileGrpc(stopAfter int) (addr string, stop func()) {
 		if v := md.Get("x-garbage"); len(v) > 0 {
 			b, _ := hex.DecodeString(v[0])
 			return true, &rawBytes{b: b}, nil
+		}
+		if v := md.Get("x-list"); len(v) > 0 && strings.HasSuffix(method, "/List") {
+			n, _ := strconv.Atoi(v[0])
+			r := &server.ListResponse{}
+			for k := 0; k < n; k++ {
+				r.Result = append(r.Result, &server.ListItem{ItemId: int64(k + 1)})
+			}
+			return true, r, nil
 		}
 		if v := md.Get("x-big"); len(v) > 0 {
 			n, _ := strconv.Atoi(v[0])
